@@ -1615,14 +1615,15 @@ pub fn run(cx: &mut Ctx) {
         let long = ReqShape { typ: 0, code: 3, tok: vec![0xab, 0xcd], path: (0..16).map(|i| vec![b's', b'a' + i as u8]).collect(), extra: vec![] };
         let ov_req = overhead_of(&long.spec(1, Some(bv_bytes(1, true, 6)), None, &[]).build());
         for j in 4..=7u32 {
-            for delta in -4i64..=3 {
+            for delta in -16i64..=3 {
                 let m = (ov_req as i64 + 12 + (1i64 << j) + delta) as usize;
                 if m > 1280 {
                     continue;
                 }
-                let szx = 6u8;
+                // the client's block size is the next power of two ABOVE what the budget leaves room for
+                let szx = ((j - 4 + 1) as u8).min(6);
                 let mut sess = Session::new(m, 60000);
-                run_upload(cx, &Upload { shape: &long, ep: 1, m, body: body_of(&mut rng, 3 * (1usize << j) + 7), szx, dups: vec![1], abandoned: None, dup_final: 0, fresh_tokens: false }, &mut sess);
+                run_upload(cx, &Upload { shape: &long, ep: 1, m, body: body_of(&mut rng, 3 * (16usize << szx) + 7), szx, dups: vec![1], abandoned: None, dup_final: 0, fresh_tokens: false }, &mut sess);
                 let ropts: Vec<(u16, Vec<u8>)> = (0..10).map(|i| (8u16, vec![b'l', b'0' + i as u8])).collect();
                 let get = ReqShape { code: 1, ..long.clone() };
                 let mut sess = Session::new(m, 60000);
